@@ -1,7 +1,7 @@
 """C02 - ChaCha generators emit the genuine ChaCha keystream on every backend."""
 from . import common as C, gen_chacha as G
 
-LEAN_MODULE = ["Urandom.Props.C02", "Urandom.Props.C02T"]
+LEAN_MODULE = ["Urandom.Props.C02", "Urandom.Props.C02T", "Urandom.Props.C02S"]
 
 
 def disagreement_is_failing(req, impl, model):
